@@ -190,7 +190,11 @@ func (s *v4Server) ResetLeases(leases []*dhcpsvc.Lease) (err error) {
 // resetLease adds l to the lease table being reset.  A dynamic lease is never
 // dropped because of its hostname, it is added without the hostname instead.
 func (s *v4Server) resetLease(l *dhcpsvc.Lease) {
-	if !l.IsStatic {
+	// Don't generate hostnames for the leases that no client holds, which are
+	// the offers that have never been acknowledged and the blocklisted
+	// addresses, since these don't have any hostname before the restart either.
+	isHeld := !l.Expiry.IsZero() && !s.isBlocklisted(l)
+	if !l.IsStatic && (isHeld || l.Hostname != "") {
 		l.Hostname = s.validHostnameForClient(l.Hostname, l.IP)
 	}
 
